@@ -167,6 +167,10 @@ class LinkedGen:
         # splice moves the nodes themselves, so it is only meaningful between lists on the same allocator
         c = rng.choice(["add_all", "add_all_at"] if sim.mix else ["add_all", "add_all_at", "splice", "splice_at"])
         o = f" o={a}" if a else ""
+        if c.startswith("add_all") and len(la) + len(lb) > 64:
+            # repeated copies double the sizes; keep the lists far below the shims' log capacity
+            del la[:]
+            out.append("remove_all" + o)
         if c in ("add_all_at", "splice_at"):
             i = self.idx_choice(rng, len(la), reject)
             if rng.random() < 0.3:
@@ -294,13 +298,97 @@ class LinkedGen:
                 a, b = b, a
         return out
 
+    def cursor_family(self, rng, sim):
+        """Exactly this shape (C04): (1) an index based, non-shifting lookup at a middle index i of list B
+        (0 < i < size-1, B has 6..12 elements) as the LAST operation on B; (2) one of the four bulk operations
+        from B into A; (3) B refilled by add / add_last only, to at least i+3 elements; (4) the very next
+        operation on B is index based at i or i+-1.  Both lists take either role.  Whatever a lookup leaves
+        behind in B (a cursor cache) survives steps 2-3 unless the bulk operation invalidates it in its
+        SOURCE as well."""
+        out = []
+        while len(sim.live()) < 2:
+            k = sim.free_slot()
+            sim.s[k] = []
+            ctor = sim.ctor_for(k)
+            out.append(f"{ctor} o={k}" if k else ctor)
+        a, b = rng.sample(sim.live(), 2)
+        for rnd in range(rng.randint(1, 3)):
+            la, lb = sim.s[a], sim.s[b]
+            oa = f" o={a}" if a else ""
+            ob = f" o={b}" if b else ""
+            target = rng.randint(6, 12)
+            while len(lb) < target:
+                v = val(rng)
+                lb.append(v)
+                out.append(rng.choice(["add", "add_last"]) + f" {v}{ob}")
+            for _ in range(rng.randint(0, 2)):           # anything on A
+                out.append(self.indexed_probe(rng, sim, a)[0])
+            n = len(lb)
+            i = rng.choice([n // 2, n // 2, n // 2 - 1, n // 2 + 1, rng.randint(1, n - 2)])
+            i = min(max(i, 1), n - 2, 10)      # bounds the refill below
+            if rng.random() < 0.7:
+                out.append(f"get_at idx={i}{ob}")
+            else:
+                v = val(rng)
+                lb[i] = v
+                out.append(f"replace_at {v} idx={i}{ob}")
+            for _ in range(rng.randint(0, 2)):
+                out.append(self.indexed_probe(rng, sim, a)[0])
+            c = rng.choice(["add_all", "add_all_at"] if sim.mix else ["splice", "splice", "splice_at", "splice_at", "add_all", "add_all_at"])
+            if c.startswith("add_all") and len(la) + len(lb) > 48:
+                if sim.mix:
+                    del la[:]
+                    out.append("remove_all" + oa)
+                else:
+                    c = "splice" if c == "add_all" else "splice_at"
+            if c.endswith("_at"):
+                j = rng.choice([0, len(la) // 2, max(len(la) - 1, 0), len(la)])
+                ok = lb and (j <= len(la) if self.dbl else j < len(la))
+                if ok:
+                    la[j:j] = list(lb)
+                    if c == "splice_at":
+                        del lb[:]
+                out.append(f"{c} from={b} idx={j}{oa}")
+            else:
+                la.extend(lb)
+                if c == "splice":
+                    del lb[:]
+                out.append(f"{c} from={b}{oa}")
+            for _ in range(rng.randint(0, 2)):
+                out.append(self.indexed_probe(rng, sim, a)[0])
+            want = i + rng.randint(3, 6)
+            while len(lb) < want:
+                v = val(rng)
+                lb.append(v)
+                out.append(rng.choice(["add", "add_last"]) + f" {v}{ob}")
+            j = i + rng.choice([0, 0, 0, -1, 1])
+            j = max(j, 1)
+            cpost = rng.choice(["get_at", "get_at", "replace_at", "remove_at", "add_at"])
+            if cpost == "get_at":
+                out.append(f"get_at idx={j}{ob}")
+            elif cpost == "remove_at":
+                if j < len(lb):
+                    del lb[j]
+                out.append(f"remove_at idx={j}{ob}")
+            else:
+                v = val(rng)
+                if j < len(lb):
+                    if cpost == "replace_at":
+                        lb[j] = v
+                    else:
+                        lb.insert(j, v)
+                out.append(f"{cpost} {v} idx={j}{ob}")
+            if rng.random() < 0.6:
+                a, b = b, a
+        return out
+
     def iter_program(self, rng, sim, k):
         l = sim.s[k]
         o = f" o={k}" if k else ""
         kinds = ["it", "it", "dit"] if self.dbl else ["it"]
         kind = rng.choice(kinds)
         out = [f"{kind}_new{o}"]
-        steps = rng.randint(1, len(l) + 3)
+        steps = rng.randint(1, (len(l) if len(l) <= 14 or rng.random() < 0.1 else 14) + 3)   # long lists: mostly partial traversals
         p_mut = rng.choice([0.2, 0.5, 0.9])
         pos = 0 if kind == "it" else len(l)
         for _ in range(steps):
@@ -450,10 +538,10 @@ class LinkedGen:
                 v = val(rng); sim.s[1].append(v); ops.append(f"add {v} o=1")
         length = rng.randint(1, 50)
         allf = focus in ("all", "refuse")
-        if (focus is None or allf) and rng.random() < 0.12:
+        if (focus is None or allf) and rng.random() < 0.15:
             # a history that consists of two-list programs around the bulk operations
             for _ in range(rng.randint(1, 3)):
-                ops.extend(self.two_list_program(rng, sim))
+                ops.extend(self.cursor_family(rng, sim) if rng.random() < 0.5 else self.two_list_program(rng, sim))
                 for _ in range(rng.randint(0, 3)):
                     ops.append(self.core_op(rng, sim, rng.choice(sim.live())))
             length = rng.randint(0, 6)
@@ -475,8 +563,8 @@ class LinkedGen:
                 new = self.sort_op(rng, sim, k)
             elif self.dbl and allf and r < 0.31:
                 new = [f"reduce" + (f" o={k}" if k else "")]
-            elif r > 0.93 and (focus is None or allf):
-                new = self.two_list_program(rng, sim)
+            elif r > 0.94 and (focus is None or allf):
+                new = self.cursor_family(rng, sim) if rng.random() < 0.5 else self.two_list_program(rng, sim)
             elif r > 0.86 and focus != "growth":
                 new = self.bulk_op(rng, sim, reject=(focus == "reject"))
             elif focus == "fault":
@@ -550,6 +638,20 @@ class LinkedGen:
                                 out.append(build(A) + build(B, 1) + ["get_at idx=1", pre, bulk, "get_at idx=2"] + refill +
                                            [post, f"get_at idx={j} o=1", "get_at idx=1", "get_first o=1", "get_last o=1",
                                             "splice from=0 o=1", "get_at idx=2 o=1", "add 41", "add 42", "get_at idx=1", "destroy"])
+            # (b3) middle lookup as the LAST operation on the source, bulk operation, refill by add/add_last only,
+            # the next operation on the source is index based at (or next to) the old index; either slot as source
+            for nb, i in ((6, 4), (9, 4), (12, 7)):
+                for src in (1, 0):
+                    dst = 1 - src
+                    os_, od = (f" o={src}" if src else ""), (f" o={dst}" if dst else "")
+                    B = [20 + x for x in range(nb)]
+                    A = [11, 12, 13]
+                    pre = build(A, dst) + build(B, src) if dst == 0 else build(B, src) + build(A, dst)
+                    for bulk in (f"splice from={src}{od}", f"splice_at from={src} idx=1{od}", f"add_all from={src}{od}", f"add_all_at from={src} idx=1{od}"):
+                        fill = [("add" if x % 2 else "add_last") + f" {40 + x}{os_}" for x in range(i + 4)]
+                        for post in (f"get_at idx={i}", f"get_at idx={i - 1}", f"get_at idx={i + 1}", f"replace_at 77 idx={i}",
+                                     f"remove_at idx={i}", f"add_at 77 idx={i}"):
+                            out.append(pre + [f"get_at idx={i}{os_}", bulk] + fill + [post + os_, f"get_at idx={i}{os_}", f"get_at idx=1{od}", "destroy"])
             # chains: A->B then B->A with indexed operations on both lists around every step
             for c1 in ("splice from=1", "splice_at from=1 idx=1"):
                 for c2 in ("splice from=0 o=1", "splice_at from=0 idx=0 o=1", "add_all from=0 o=1"):
